@@ -17,14 +17,14 @@ LEVEL = 'exploration'
 ENGINE = 'history'
 BUDGET = {'quick': 15000, 'thorough': 400000}
 WALL = {'quick': 45, 'thorough': 1500}
-RULE = ('one trash-put of one file per case over the lattice: home on / or on its own volume, 0-3 extra volumes, nested mount, state of '
+RULE = ('one trash-put per case, of one file - or, in a quarter of the cases, of 2-4 files lying on different volumes - over the lattice: home on / or on its own volume, 0-3 extra volumes, nested mount, state of '
         '.Trash (absent, sticky, non-sticky, symlink, file) and of .Trash-$uid (absent, dir, file, symlink to another volume), file on the '
         'home volume / another volume / nested volume / reached through a volume-crossing symlink, XDG_DATA_HOME set/unset/empty/through a '
         'symlink, --trash-dir, fallback switches, uids, umasks; non-trivial = the file is not on the home-trash volume or an option/env '
         'switch is involved; distinct = (home mode, file place, .Trash state, .Trash-uid state, xdg, options, chosen kind)')
 ASSUMPTIONS = ['relative XDG_DATA_HOME and unset HOME are not generated (the statement does not define them)',
                'worlds where the prescribed directory cannot be created (parent is a file) are not generated']
-PROBES = ['with-concurrent-companion', 'home-chosen', 'top-chosen', 'alt-chosen', 'custom-chosen', 'none-chosen', 'created-0700', 'cross-volume-symlink-path',
+PROBES = ['with-concurrent-companion', 'arguments-on-different-volumes', 'home-chosen', 'top-chosen', 'alt-chosen', 'custom-chosen', 'none-chosen', 'created-0700', 'cross-volume-symlink-path',
           'xdg-empty', 'fallback-copy', 'alt-symlink-other-volume', 'umask-not-022']
 TECHNIQUE = 'deterministic simulation of trash-put over the configuration lattice; chosen directory compared with a spec-level chooser; op-trace monitor for EXDEV/copy and stdin reads'
 LEVEL_TEXT = 'seeded exploration of mount layouts x .Trash states x env x options; decision-table check against model/chooser.py plus mode and same-volume checks'
@@ -88,7 +88,16 @@ def gen(rng):
         opts.append('-v')
     cwd = rng.choice(['/', home, d])
     companion = None
-    if rng.random() < 0.25:
+    args = [arg]
+    if rng.random() < 0.25 and L['vols']:
+        # several arguments in one command, on different volumes: each one gets the directory prescribed for ITS volume
+        places = [home + '/w'] + [L['work'][v] for v in L['vols']]
+        rng.shuffle(places)
+        for i, d2 in enumerate(places[:rng.randint(1, 3)]):
+            G.make_entry(rng, d2 + '/extra%d' % i, rng.choice(['file', 'dir', 'link_dangling']), steps, home + '/aux')
+            args.append(d2 + '/extra%d' % i)
+        rng.shuffle(args)
+    elif rng.random() < 0.25:
         # another trash-put of the same user, on the same volume, at the same time
         steps.append(['f', d + '/companion-file', 'companion', 0o644])
         companion = {'argv': ['trash-put'] + [o for o in opts if o != '-v'] + ['--', d + '/companion-file'], 'env': env, 'cwd': '/', 'uid': uid}
@@ -96,7 +105,7 @@ def gen(rng):
         'companion': companion,
         'sched_seed': rng.randrange(1 << 30),
         'world': {'mounts': L['mounts'], 'steps': steps},
-        'procs': [{'argv': ['trash-put'] + opts + ['--', arg], 'env': env, 'cwd': cwd, 'uid': uid, 'stdin': 'n\nn\n'}],
+        'procs': [{'argv': ['trash-put'] + opts + ['--'] + args, 'env': env, 'cwd': cwd, 'uid': uid, 'stdin': 'n\nn\n'}],
         'dirsalt': rng.randrange(1 << 30),
         'umask': rng.choice([0o022, 0o022, 0o077, 0o002, 0o000, 0o027]),
         'note': {'home_mode': L['home_mode'], 'place': place, 'xdg': xdg},
@@ -109,82 +118,95 @@ def check(sim, case, st):
     argv = spec['argv']
     from props.c01 import parse_args, opt_value
     files = parse_args(argv)
-    if len(files) != 1:
+    if not files:
         return []
     env, uid, cwd = spec.get('env', {}), spec.get('uid', 1000), spec.get('cwd', '/')
     if not env.get('HOME') or (env.get('XDG_DATA_HOME') and not env['XDG_DATA_HOME'].startswith('/')):
         return []
     mounts = OR.mounts_of(case)
     snap0 = sim.snap()
-    nm = OP.name_entry(sim.root, cwd, files[0], snap0, mounts)
-    if nm.kind != 'entry' or 'mountroot' in nm.cls:
+    nms = [OP.name_entry(sim.root, cwd, f, snap0, mounts) for f in files]
+    if any(n.kind != 'entry' or 'mountroot' in n.cls for n in nms) or OP.related(nms):
         return []
-    parent_real = posixpath.dirname(nm.loc) or '/'
     td = opt_value(argv, '--trash-dir')
     fb = '--home-fallback' in argv and env.get('TRASH_ENABLE_HOME_FALLBACK') == '1'
-    exp, why = MC.prescribed(snap0, mounts, env, uid, parent_real, td, cwd, fb)
     comp = case.get('companion')
-    if comp:
+    if comp and len(files) == 1:
         import random as _random
         from sim import sched as SS
         cn = OP.name_entry(sim.root, comp.get('cwd', '/'), comp['argv'][-1], snap0, mounts)
-        if cn.kind != 'entry' or OP.related([nm, cn]):
+        if cn.kind != 'entry' or OP.related(nms + [cn]):
             return []
         chooser = SS.Chooser(_random.Random(case.get('sched_seed', 0)), 'uniform', nprocs=2)
         results, _sch = SS.run_concurrent(sim, [spec, comp], chooser)
         r = results[0]
         st.probes['with-concurrent-companion'] += 1
         snap1 = sim.snap()
-        outs, probs = OP.judge(sim.root, snap0, snap1, [nm, cn], mounts, [])
+        outs, probs = OP.judge(sim.root, snap0, snap1, nms + [cn], mounts, [])
     else:
         r = sim.run(spec)
         snap1 = sim.snap()
-        outs, probs = OP.judge(sim.root, snap0, snap1, [nm], mounts, [])
+        outs, probs = OP.judge(sim.root, snap0, snap1, nms, mounts, [])
     st.sims += 1
     st.ops += r.nops
-    oc = outs[0]
     res = []
     note = case.get('note', {})
     if case.get('umask', 0o022) != 0o022:
         st.probes['umask-not-022'] += 1
     if env.get('XDG_DATA_HOME') == '':
         st.probes['xdg-empty'] += 1
-    vf = ML.volume_of(mounts, parent_real)
-    if parent_real != (posixpath.dirname(files[0]) if files[0].startswith('/') else None) and \
-            ML.volume_of(mounts, posixpath.dirname(files[0]) if files[0].startswith('/') else cwd) != vf:
-        st.probes['cross-volume-symlink-path'] += 1
     optset = ','.join(a for a in argv[1:] if a.startswith('--') and a != '--') + (',env-fb' if env.get('TRASH_ENABLE_HOME_FALLBACK') == '1' else '')
-    ctx = '(argv %r, cwd %r, env %r, uid %d, mounts %r, file volume %r; model: %s)\nstderr: %s' % (
-        argv, cwd, env, uid, mounts, vf, '; '.join(why), r.errs[-600:])
-    sigctx = '%s/xdg=%s%s' % (note.get('place', '?'), 'empty' if env.get('XDG_DATA_HOME') == '' else ('set' if env.get('XDG_DATA_HOME') else 'unset'),
-                              '/fallback-enabled' if fb else '')
-    chosen_kind = 'none'
-    if oc.state == 'trashed':
-        T = oc.tdir            # resolved location (snapshot paths are symlink-free)
-        expr = [MC.deepest_existing(snap1, e) for e in exp]
-        if T in expr:
-            e0 = exp[expr.index(T)]
-            h = MB.home_trash(env)
-            chosen_kind = 'custom' if td else ('home' if e0 == h else ('top' if '/.Trash/' in e0 else 'alt'))
+    vols_of_args = set(ML.volume_of(mounts, posixpath.dirname(n.loc) or '/') for n in nms)
+    if len(vols_of_args) > 1:
+        st.probes['arguments-on-different-volumes'] += 1
+    for ai, (nm, afile) in enumerate(zip(nms, files)):
+        oc = outs[ai]
+        parent_real = posixpath.dirname(nm.loc) or '/'
+        # the directories an earlier argument creates (.Trash/$uid, .Trash-$uid, files, info) do not change what is prescribed
+        exp, why = MC.prescribed(snap0, mounts, env, uid, parent_real, td, cwd, fb)
+        vf = ML.volume_of(mounts, parent_real)
+        if parent_real != (posixpath.dirname(afile) if afile.startswith('/') else None) and \
+                ML.volume_of(mounts, posixpath.dirname(afile) if afile.startswith('/') else cwd) != vf:
+            st.probes['cross-volume-symlink-path'] += 1
+        ctx = '(argument %r of argv %r, cwd %r, env %r, uid %d, mounts %r, file volume %r; model: %s)\nstderr: %s' % (
+            afile, argv, cwd, env, uid, mounts, vf, '; '.join(why), r.errs[-600:])
+        place = note.get('place', '?') if len(files) == 1 else ('multi:arg%d-of-%d-volumes' % (ai, len(vols_of_args)))
+        sigctx = '%s/xdg=%s%s' % (place, 'empty' if env.get('XDG_DATA_HOME') == '' else ('set' if env.get('XDG_DATA_HOME') else 'unset'),
+                                  '/fallback-enabled' if fb else '')
+        chosen_kind = 'none'
+        if oc.state == 'trashed':
+            T = oc.tdir            # resolved location (snapshot paths are symlink-free)
+            expr = [MC.deepest_existing(snap1, e) for e in exp]
+            if T in expr:
+                e0 = exp[expr.index(T)]
+                h = MB.home_trash(env)
+                chosen_kind = 'custom' if td else ('home' if e0 == h else ('top' if '/.Trash/' in e0 else 'alt'))
+            else:
+                chosen_kind = 'wrong'
+                res.append(('C07/wrong-dir/%s' % sigctx, 'entry went to %r, the spec prescribes %r %s' % (T, exp, ctx)))
+            # same volume, no copy
+            if ML.volume_of(mounts, T) != vf and not fb:
+                res.append(('C07/other-volume/%s' % sigctx, 'trash dir %r is on volume %r, the file on %r %s' % (T, ML.volume_of(mounts, T), vf, ctx)))
+            # modes of what was created
+            for p in (T, T + '/files', T + '/info'):
+                if p not in snap0 and p in snap1 and snap1[p][0] == 'd':
+                    if snap1[p][1] != 0o700:
+                        res.append(('C07/created-mode/%s' % sigctx, 'created %r with mode %o under umask %o %s' % (p, snap1[p][1], case.get('umask', 0o022), ctx)))
+                    else:
+                        st.probes['created-0700'] += 1
+        elif oc.state == 'untouched':
+            if exp:
+                res.append(('C07/not-trashed/%s' % sigctx, 'the spec prescribes %r but trash-put did not trash the file (exit %s) %s' % (exp, r.exit, ctx)))
         else:
-            chosen_kind = 'wrong'
-            res.append(('C07/wrong-dir/%s' % sigctx, 'entry went to %r, the spec prescribes %r %s' % (T, exp, ctx)))
-        # same volume, no copy
-        if ML.volume_of(mounts, T) != vf and not fb:
-            res.append(('C07/other-volume/%s' % sigctx, 'trash dir %r is on volume %r, the file on %r %s' % (T, ML.volume_of(mounts, T), vf, ctx)))
-        # modes of what was created
-        for p in (T, T + '/files', T + '/info'):
-            if p not in snap0 and p in snap1 and snap1[p][0] == 'd':
-                if snap1[p][1] != 0o700:
-                    res.append(('C07/created-mode/%s' % sigctx, 'created %r with mode %o under umask %o %s' % (p, snap1[p][1], case.get('umask', 0o022), ctx)))
-                else:
-                    st.probes['created-0700'] += 1
-    elif oc.state == 'untouched':
-        if exp:
-            res.append(('C07/not-trashed/%s' % sigctx, 'the spec prescribes %r but trash-put did not trash the file (exit %s) %s' % (exp, r.exit, ctx)))
-    else:
-        res.append(('C07/half/%s' % sigctx, 'argument ended half-trashed: %s %s' % (oc.why, ctx)))
-    st.probes[chosen_kind + '-chosen'] += 1 if chosen_kind != 'wrong' else 0
+            res.append(('C07/half/%s' % sigctx, 'argument ended half-trashed: %s %s' % (oc.why, ctx)))
+        if chosen_kind != 'wrong':
+            st.probes[chosen_kind + '-chosen'] += 1
+        trivial = (chosen_kind == 'home' and not td and not optset and note.get('place') == 'home' and env.get('XDG_DATA_HOME') is None
+                   and len(files) == 1)
+        if not trivial:
+            st.distinct.add((note.get('home_mode'), note.get('place') if len(files) == 1 else 'multi', MB.top_state(snap0, vf),
+                             (snap0.get((vf if vf != '/' else '') + '/.Trash-%d' % uid) or ('absent',))[0],
+                             note.get('xdg'), optset, chosen_kind))
     # trace monitors
     copied = any(ev[2] in ('sendfile', 'copy_file_range') or (ev[2] == 'rename' and ev[6] == 'E:EXDEV') for ev in r.trace)
     if copied:
@@ -196,10 +218,6 @@ def check(sim, case, st):
         res.append(('C07/prompted/%s' % sigctx, 'trash-put read from stdin (prompted) although neither -i nor anything else asks for it %s' % ctx))
     if any('.Trash-' in (k or '') and v[0] == 'l' for k, v in snap0.items()):
         st.probes['alt-symlink-other-volume'] += 1
-    trivial = (chosen_kind == 'home' and not td and not optset and note.get('place') == 'home' and env.get('XDG_DATA_HOME') is None)
-    if not trivial:
-        st.distinct.add((note.get('home_mode'), note.get('place'), MB.top_state(snap0, vf), (snap0.get((vf if vf != '/' else '') + '/.Trash-%d' % uid) or ('absent',))[0],
-                         note.get('xdg'), optset, chosen_kind))
     seen, out = set(), []
     for s, m in res:
         if s not in seen:
